@@ -493,6 +493,20 @@ def scope_programs_2(pid0):
             dsl = "/*via __fb!({ tick() })*/ %stick() |> |v| v, %s{ tick() } |> |v| v, %s" % (nm[0], nm[1], h)
             out.append((pid, kind, dsl, rty, exp, [(1, 2)], 4, "scope,scope:forwarded_block_%s,fwdblock" % ("named" if named else "unnamed"), "", False, prelude))
             pid += 1
+    # (d) a step is a barrier for names as well: a plain closure operand of step k that reads a sibling's name sees that
+    #     sibling's step k-1 result, also when the sibling is listed before the reader
+    for kind in ALL:
+        if kind in ASYNC:
+            continue
+        tr = kind.startswith("try_")
+        br = ["let a = Some(1u32) |> |v| v + 1 ~|> |v| v * 10 ~|> |v| v + 1",
+              "let b = Some(5u32) ~|> move |v| v + a.unwrap() ~|> move |v| v + a.unwrap()"]
+        if tr:
+            h, rty, exp = "map => |a, b| (a, b)", "Option<(u32, u32)>", "Some((21, 27))"
+        else:
+            h, rty, exp = "then => |a, b| (a, b)", "(Option<u32>, Option<u32>)", "(Some(21), Some(27))"
+        out.append((pid, kind, ", ".join(br + [h]), rty, exp, [(1, 2)], 4, "scope,scope:sibling_name_in_plain_closure", "", False, ""))
+        pid += 1
     # (c)
     for kind in ("try_join_async", "try_join_async_spawn", "try_async_spawn"):
         # (`and_then` is built with TryFutureExt::and_then, which exists for Result outputs only: `map` is the handler here)
